@@ -20,11 +20,11 @@ Fixpoint calls (n fuel : nat) (max limit : N) (bs : nat) (h : heap) (r : grd) : 
   | O => ([], h, r)
   | S n =>
     match gnext_record prod_mi prod_ms max limit bs fuel h r with
-    | (GRecord rs re, h', r') =>
+    | (GRecord rs re, h', r', _) =>
       let '(rest, hf, rf) := calls n fuel max limit bs h' r' in
       (([1%Z; znat rs; znat re] :: obs_obj h' (Some (riov r', [])) ++ [glob h' r']) ++ rest, hf, rf)
-    | (GNone, h', r') => ([], h', r')
-    | (_, h', r') => ([[99%Z]], h', r')
+    | (GNone, h', r', _) => ([], h', r')
+    | (_, h', r', _) => ([[99%Z]], h', r')
     end
   end.
 
@@ -41,11 +41,11 @@ Definition run_grdr (c : N * N * N * list byte) : list (list Z) :=
     else
       (* the stream stays ended *)
       match gnext_record prod_mi prod_ms max limit (N.to_nat bs) fuel h1 r1 with
-      | (GNone, h2, r2) =>
+      | (GNone, h2, r2, _) =>
         match gnext_record prod_mi prod_ms max limit (N.to_nat bs) fuel h2 r2 with
-        | (GNone, h3, r3) => obs ++ [[1%Z; znat (rlso r3)]; glob h3 r3]
-        | (_, h3, r3) => obs ++ [[0%Z; znat (rlso r3)]; glob h3 r3]
+        | (GNone, h3, r3, _) => obs ++ [[1%Z; znat (rlso r3)]; glob h3 r3]
+        | (_, h3, r3, _) => obs ++ [[0%Z; znat (rlso r3)]; glob h3 r3]
         end
-      | (_, h2, r2) => obs ++ [[0%Z; znat (rlso r2)]; glob h2 r2]
+      | (_, h2, r2, _) => obs ++ [[0%Z; znat (rlso r2)]; glob h2 r2]
       end
   end.
